@@ -30,7 +30,7 @@ ASSUMPTIONS = [
     "json / pickle / pydantic-core / repr are executed, not encoded: which values they accept is observed, not proved",
 ]
 TRUSTED = ["json, pickle, pydantic (executed)", "vt.sym explorer"]
-REQUIRED_COVERS = ["json", "json_dict", "pickle", "cycle", "self_loop", "suppressed_context", "stand_in", "exact_class", "unrepresentable_arg", "bad_unpickle_arg", "three_nodes", "late_import"]
+REQUIRED_COVERS = ["json", "json_dict", "pickle", "cycle", "self_loop", "suppressed_context", "stand_in", "exact_class", "unrepresentable_arg", "bad_unpickle_arg", "three_nodes", "late_import", "stored_twice"]
 
 
 def bounds(tier: str) -> Dict[str, Any]:
@@ -193,6 +193,18 @@ def harness(c: sym.Ctx, case: Dict[str, Any]) -> None:
     if akinds[0] == "bad_unpickle":
         c.cover("bad_unpickle_arg")
     res = TaskiqResult(is_err=True, return_value=None, execution_time=0.1, error=nodes[0], labels={})
+    if n <= 2 and c.flag("same_result_stored_before_with_the_other_coder"):
+        # a result object may be stored twice (e.g. a pickling cache in front of a JSON backend): the first store must not
+        # leave state behind that changes the second
+        c.cover("stored_twice")
+        try:
+            if enc == "pickle":
+                res.model_dump_json()
+            else:
+                pickle.dumps(res)
+        except BaseException as exc:  # noqa: BLE001
+            c.check(False, "round_trip_never_fails", enc="other coder first", exc=repr(exc)[:200])
+            return
     # ---- totality
     try:
         if enc == "json":
